@@ -81,6 +81,9 @@ func (x *Exec) run(res *FuncResult) {
 			}
 			v := x.freshVal(st, o.Name(), fr.subst(o.Type()))
 			x.paramFacts(st, v)
+			if p, ok := c.ParamProto[nm.Name]; ok {
+				v.Proto = p
+			}
 			args = append(args, v)
 			if nm.Name != "_" {
 				names[nm.Name] = v
